@@ -167,6 +167,22 @@ func register(id, explanation string, f func(r *Run)) {
 	props[id] = &propDef{ID: id, Explanation: explanation, Run: f}
 }
 
+// loadCached loads the tree once per (root, configuration) within a process;
+// only the dev command "checkall" runs more than one property per process.
+var progCache = map[string]*Prog{}
+
+func loadCached(root, cfg string) (*Prog, error) {
+	k := root + "|" + cfg
+	if p := progCache[k]; p != nil {
+		return p, nil
+	}
+	p, err := Load(root)
+	if err == nil {
+		progCache[k] = p
+	}
+	return p, err
+}
+
 // runCheck executes one property check and returns the process exit code.
 func runCheck(id, tier string) int {
 	start := time.Now()
@@ -206,7 +222,7 @@ func runCheck(id, tier string) int {
 		}
 		r.cfg = cfg
 		var err error
-		p, err = Load(repoRoot())
+		p, err = loadCached(repoRoot(), cfg)
 		if err != nil {
 			// a tree that does not load is reported as a violation of the check's
 			// precondition: nothing can be decided.
